@@ -623,7 +623,25 @@ def disposeNode : Nat → Root → Id → Except Panic Root
   | fuel + 1, r, id =>
     match disposeChildren fuel (unsubscribe r id) id with
     | .error e => .error e
-    | .ok r => .ok (removeNode r id)
+    | .ok r =>
+      match disposeRest fuel r id with
+      | .error e => .error e
+      | .ok r => .ok (removeNode r id)
+
+/-- the loop in `NodeHandle::dispose` (repair D23): a cleanup may have created nodes, or registered further
+cleanups, in this very scope while it was being torn down (through a captured handle); as long as the node
+holds children or cleanups they are torn down as well, so that nothing is left behind without an owner -/
+def disposeRest : Nat → Root → Id → Except Panic Root
+  | 0, _, _ => .error .fuel
+  | fuel + 1, r, id =>
+    match r.get? id with
+    | none => .ok r
+    | some n =>
+      if n.children.isEmpty && n.cleanups.isEmpty then .ok r
+      else
+        match disposeChildren fuel r id with
+        | .error e => .error e
+        | .ok r => disposeRest fuel r id
 
 /-- `NodeHandle::dispose_children` -/
 def disposeChildren : Nat → Root → Id → Except Panic Root
